@@ -1194,6 +1194,10 @@ def _level(e, T, kwname):
     if isinstance(e, ast.Subscript):
         return 2 if _level(e.value, T, kwname) else 0
     if isinstance(e, ast.Attribute):
+        if isinstance(e.value, ast.Name) and e.value.id == "self":
+            # an attribute of self: caller-visible when self is (a method that must not change its object), or when
+            # the attribute was bound to a caller-visible object in this very function (self.x = argument)
+            return 2 if (T.get("self", 0) == 2 or T.get("self." + e.attr, 0) == 2) else 0
         return 2 if _level(e.value, T, kwname) == 2 else 0
     if isinstance(e, ast.IfExp):
         return max(_level(e.body, T, kwname), _level(e.orelse, T, kwname))
@@ -1423,6 +1427,11 @@ def _analyse(fn, tainted_params, fns, writes, calls):
         return T
 
     T0 = {n: lv for n, lv in tainted_params}
+    if is_method and fn.qual.split(".<locals>.")[0] in SELF_WRITERS:
+        # the methods that are allowed to write the object's own state may do so through a local alias as well
+        # (`lst = self._metrics[key]; lst.append(v)` is the same write as `self._metrics[key].append(v)`); what
+        # they were GIVEN - their other parameters, and attributes bound to those - stays caller-visible
+        T0.pop("self", None)
     run(fn.node.body, T0)
 
 
